@@ -196,8 +196,19 @@ func handleName(v ssa.Value) string {
 func ruleLayoutNode(w *World, r *Report) {
 	const rule = "Y3"
 	enc, dec := fnByName(w, "(node).populateDiskStruct", "(*node).populateDiskStruct"), fnByName(w, "populateNode")
+	encArgs := []interface{}{nil, symV("length")}
+	// a codec helper that was folded into its only caller: evaluate the caller (the node
+	// writer found by role / the node reader), which then contains the same puts and gets
+	if enc == nil {
+		if wr := w.writeRoles(); wr.nodeWriter != nil {
+			enc, encArgs = wr.nodeWriter, []interface{}{nil, nil}
+		}
+	}
+	if dec == nil {
+		dec = w.Fn("(*nodeLoc).read")
+	}
 	if enc == nil || dec == nil {
-		r.Unknown(rule, "node codec", "-", "populateDiskStruct/populateNode not found")
+		r.Unknown(rule, "node codec", "-", "neither populateDiskStruct/populateNode nor a node writer / reader to evaluate in their place")
 		return
 	}
 	// the encoder: walk its instructions in the evaluator, but label inlined location
@@ -206,7 +217,7 @@ func ruleLayoutNode(w *World, r *Report) {
 		fn   *ssa.Function
 		op   string
 		args []interface{}
-	}{{enc, "put", []interface{}{nil, symV("length")}}, {dec, "get", []interface{}{&bufRef{root: "b", off: symK(0), ln: symV("len(b)")}}}} {
+	}{{enc, "put", encArgs}, {dec, "get", []interface{}{&bufRef{root: "b", off: symK(0), ln: symV("len(b)")}}}} {
 		le := newLayEval(w)
 		le.labelHandles = true
 		outs := le.evalFn(side.fn, side.args)
@@ -230,6 +241,17 @@ func ruleLayoutNode(w *World, r *Report) {
 	if wr := w.writeRoles(); wr.nodeWriter != nil {
 		ok := false
 		eachInstr(wr.nodeWriter, func(in ssa.Instruction) {
+			if ms, isMs := in.(*ssa.MakeSlice); isMs && enc == wr.nodeWriter {
+				if k, isK := constInt(ms.Len); isK && k == 52 {
+					ok = true
+				}
+			}
+			// make([]byte, 52) with a constant length is an array allocation sliced
+			if al, isAl := in.(*ssa.Alloc); isAl && enc == wr.nodeWriter {
+				if arr, isArr := deref(al.Type()).Underlying().(*types.Array); isArr && arr.Len() == 52 {
+					ok = true
+				}
+			}
 			if c, isC := in.(*ssa.Call); isC && c.Common().StaticCallee() == enc {
 				le := newLayEval(w)
 				fr := &frame{fn: wr.nodeWriter, env: map[ssa.Value]interface{}{}, bufs: map[ssa.Value]*symInt{}}
